@@ -83,7 +83,8 @@ ISO_SINGLETONS = {
 NAME_FIELDS = ["short_day_names", "long_day_names", "short_month_names", "long_month_names", "long_month_genitive_names",
                "short_month_genitive_names", "am_designator", "pm_designator", "date_separator", "time_separator",
                "offset_pattern_long", "offset_pattern_short", "era:common", "era:before_common", "eranames:common",
-               "eranames:anno_hegirae"]  # fmt: skip
+               "eranames:anno_hegirae", "era:anno_mundi", "era:anno_martyrum", "eranames:anno_mundi", "eranames:anno_martyrum",
+               "era:anno_persico", "era:bahai", "eranames:before_common"]  # fmt: skip
 
 _POOL = None  # {"cal": {...}, ...} structured pool of ops
 _TABLE = None  # key(op) -> cold answer
@@ -490,7 +491,7 @@ def build_pool(master_seed, scale=1.0):
                 cmode = rng.choice(["cached", "cached", "cached", "new", "current"])
                 ops.append(["fmt", ptype, text, cname, cmode, rand_value(ptype)])
         pool["text"][cname] = ops
-        for w in rng.sample(NAME_FIELDS, 4):
+        for w in rng.sample(NAME_FIELDS, 6):
             pool["names"].append(["names", cname, rng.choice(["cached", "cached", "new"]), w])
     for ptype, pats in PATTERNS.items():
         for text in pats[:3]:
@@ -790,23 +791,6 @@ def execute(spec):
     strat = simsched.make_strategy(spec["strategy"], rng)
     sched = simsched.Scheduler(strat, max_steps=MAX_STEPS, hot_files=HOT_FILES, record_trace=bool(spec.get("record_trace")),
                                coarse_files=COARSE_FILES)  # fmt: skip
-    # probe: two threads inside the same function of an inventory file at the same time
-    inside = {}
-    probe = {"same_function_overlap": 0}
-
-    def on_point(t, info, lineno):
-        if info[1] and info[2] != "<lock>":
-            f = info[0]
-            prev = inside.get(t.idx)
-            if prev != f:
-                inside[t.idx] = f
-                for k2, v2 in inside.items():
-                    if k2 != t.idx and v2 == f:
-                        probe["same_function_overlap"] += 1
-                        break
-
-    if len(spec["threads"]) > 1:
-        sched.on_point = on_point
     for ti, prog in enumerate(spec["threads"]):
         sched.add_thread(_body(env, ti, prog))
     sched.run()
@@ -814,7 +798,7 @@ def execute(spec):
     if sched.trace is not None:
         out["trace"] = sched.trace
     probes = {"ops": len(env.hist), "blocked_on_lock": sched.blocked_events, "switch_holding_lock": sched.switch_holding_lock,
-              "same_function_overlap": probe["same_function_overlap"]}  # fmt: skip
+              "same_function_overlap": sched.same_function_overlap}  # fmt: skip
     probes.update(_static_probes(spec))
     out["probes"] = probes
     if sched.aborted:
